@@ -16,8 +16,10 @@ import (
 // with the full interval, never from the bounds of the set (a set with holes
 // has the same Min and Max as the full range).
 func FullRangeTests(p *core.Program, r *core.Report, rule string) {
-	isFull := func(info *types.Info, e ast.Expr) bool {
-		// interval.New(minPort, maxPort).ToSet()  |  MakePortSet(true)[.Ports]
+	var isFullD func(info *types.Info, e ast.Expr, depth int) bool
+	isFull := func(info *types.Info, e ast.Expr) bool { return isFullD(info, e, 0) }
+	isFullD = func(info *types.Info, e ast.Expr, depth int) bool {
+		// interval.New(minPort, maxPort).ToSet()  |  MakePortSet(true)[.Ports]  |  a parameterless helper of the module that returns one of these
 		found := false
 		ast.Inspect(e, func(n ast.Node) bool {
 			c, ok := n.(*ast.CallExpr)
@@ -27,6 +29,11 @@ func FullRangeTests(p *core.Program, r *core.Report, rule string) {
 			fn := core.Callee(info, c)
 			if fn == nil {
 				return true
+			}
+			if hd := p.ByObj[fn]; hd != nil && len(c.Args) == 0 && depth < 2 && len(hd.Decl.Body.List) == 1 {
+				if ret, isRet := hd.Decl.Body.List[0].(*ast.ReturnStmt); isRet && len(ret.Results) == 1 && isFullD(hd.Pkg.TypesInfo, ret.Results[0], depth+1) {
+					found = true
+				}
 			}
 			if core.RefName(fn) == "New" && len(c.Args) == 2 {
 				lo, hi := info.Types[c.Args[0]].Value, info.Types[c.Args[1]].Value
